@@ -1087,6 +1087,10 @@ func Mean(env envs.Environment, args ...types.XValue) types.XValue {
 //
 // @function mod(dividend, divisor)
 func Mod(env envs.Environment, num1 *types.XNumber, num2 *types.XNumber) types.XValue {
+	if num2.Native().IsZero() {
+		return types.NewXErrorf("division by zero")
+	}
+
 	return types.NewXNumber(num1.Native().Mod(num2.Native()))
 }
 
